@@ -152,6 +152,16 @@ def run_impl(case, env):
         obs["again"] = again
         if isinstance(again, dict):
             strings.append(again["ok"])
+    if case["fam"] != "mac":
+        # a transform is a function of its input: the other transforms of the module are applied to the same string and
+        # the first call is repeated - the answer must not depend on what was computed before
+        from vinegar.transform import ip_address, ipv4_address, ipv6_address
+        mod = {"v4": ipv4_address, "v6": ipv6_address, "ip": ip_address}[case["fam"]]
+        for other in ("net_address", "broadcast_address", "strip_mask", "normalize"):
+            g = getattr(mod, other, None)
+            if g is not None:
+                _res(g, case["s"], False)
+        obs["out_repeated"] = f(case["s"])
     if case["fam"] in ("v6", "ip"):
         obs["pton"], obs["ntop"] = _inet_tables(strings)
     return obs
@@ -330,6 +340,10 @@ def judge(case, obs, resps):
     if m.get("inet_bad"):
         return Judgement(case, True, False, {"glibc_port_differs_from_socket_module": m["inet_bad"]},
                          kind=kind0 + "/inet-port", nontrivial=False)
+    if "out_repeated" in obs and obs["out_repeated"] != obs["out"]:
+        return Judgement(case, False, False, {"first": obs["out"], "after_the_other_transforms": obs["out_repeated"],
+                                              "input": case["s"]}, kind=kind0 + "/history", nontrivial=True,
+                         failed_clause="answer-depends-on-earlier-calls")
     if case["kind"] == "pair":
         return _judge_pair(case, obs, m, kind0, meta)
     # ---- second oracle against the Lean model (never against the implementation)
